@@ -1,8 +1,368 @@
 import Lean.Data.Json
-/- stub: the C17 driver is not built yet -/
-namespace Glom.C17.Driver
-open Lean
+import Glom.Model.C17Env
+/-
+  C17 driver: one JSON case in, one JSON verdict out.
 
-def run (_j : Json) : Except String Json := .error "property C17: driver not implemented yet"
+  Iter case:
+    {"kind":"iter", "sub":name, "sentinel":null|{"v":V}, "p":[op…], "e1":[op…], "e2":[op…],
+     "src":{"fin":[V…],"tail":null|cls}, "k":n, "mode":"take"|"all"|{"first":key},
+     "impl":{"main":…, "repr_same":b, "before":T, "after":T, "reused":T, "fresh":T}}
+    the prefix spec p = Iter(sub, sentinel=…).P…; d1 = p.E1…; d2 = p.E2… (after d1);
+    T = {"items":[V…], "fin":"gotK"|"exhausted"|{"raised":cls}, "pulls":n}
+    main = T (take / all) | {"first":{"found":V}|"default"|{"raised":cls}, "pulls":n}
+  Invoke case:
+    {"kind":"invoke", "p":[call…], "e1":[call…], "e2":[call…], "target":V,
+     "impl":{"repr_same":b, "before":R, "after":R, "reused":R, "fresh":R}}
+    R = {"ok":[[V…],[[k,V]…]]} | {"raised":cls}
+  V = null | {"i":n} | {"l":[V…]} | {"t":[V…]}
+-/
+namespace Glom.C17.Driver
+open Lean Glom.C17
+
+partial def vOfJson (j : Json) : Except String V :=
+  match j with
+  | .null => .ok .none
+  | .obj _ =>
+    if let .ok i := j.getObjValAs? Int "i" then .ok (.int i)
+    else if let .ok (.arr a) := j.getObjVal? "l" then do return .list (← a.toList.mapM vOfJson)
+    else if let .ok (.arr a) := j.getObjVal? "t" then do return .tup (← a.toList.mapM vOfJson)
+    else .error s!"bad V {j.compress}"
+  | _ => .error s!"bad V {j.compress}"
+
+partial def vToJson : V → Json
+  | .none => .null
+  | .int i => Json.mkObj [("i", toJson i)]
+  | .list xs => Json.mkObj [("l", Json.arr (xs.map vToJson).toArray)]
+  | .tup xs => Json.mkObj [("t", Json.arr (xs.map vToJson).toArray)]
+
+def arr (j : Json) : Except String (List Json) :=
+  match j with
+  | .arr a => .ok a.toList
+  | _ => .error s!"expected array, got {j.compress}"
+
+/-! ### the catalogue of user callables (Python side: harness/props/c17.py `CATALOGUE`) -/
+
+def intFn (g : Int → V) : Fn := fun x =>
+  match x with
+  | .int i => .ok (g i)
+  | _ => .error "TypeError"
+
+def catalogue (name : String) : Option Fn :=
+  match name with
+  | "T" => some (fun x => .ok x)
+  | "inc" => some (intFn (fun i => .int (i + 1)))
+  | "dbl" => some (fun x => match x with
+      | .int i => .ok (.int (i * 2))
+      | .list xs => .ok (.list (xs ++ xs))
+      | .tup xs => .ok (.tup (xs ++ xs))
+      | .none => .error "TypeError")
+  | "neg" => some (intFn (fun i => .int (-i)))
+  | "mod2" => some (intFn (fun i => .int (i % 2)))
+  | "mod3" => some (intFn (fun i => .int (i % 3)))
+  | "lt3" => some (intFn (fun i => .int (if i < 3 then 1 else 0)))
+  | "wrap" => some (fun x => .ok (.list [x, x]))
+  | "rng" => some (intFn (fun i => .list ((List.range (i % 3).toNat).map (fun (n : Nat) => V.int (Int.ofNat n)))))
+  | "pair" => some (fun x => .ok (.tup [x, .int 0]))
+  | "length" => some (fun x => match x with
+      | .list xs => .ok (.int xs.length)
+      | .tup xs => .ok (.int xs.length)
+      | _ => .error "TypeError")
+  | "head" => some (fun x => match x with
+      | .list (y :: _) => .ok y
+      | .tup (y :: _) => .ok y
+      | _ => .error "PathAccessError")
+  | "bad3" => some (fun x => if x == V.int 3 then .error "ValueError" else .ok x)
+  | "none" => some (fun _ => .ok .none)
+  | "zero" => some (fun _ => .ok (.int 0))
+  | "one" => some (fun _ => .ok (.int 1))
+  | _ => none
+
+def baseCatalogue (name : String) : Option BaseFn :=
+  match name with
+  | "skip_odd" => some (fun x => match x with
+      | .int i => if i % 2 != 0 then .ok .skip else .ok (.val x)
+      | _ => .ok (.val x))
+  | "stop_ge4" => some (fun x => match x with
+      | .int i => if i ≥ 4 then .ok .stop else .ok (.val x)
+      | _ => .ok (.val x))
+  | "skip_stop" => some (fun x => match x with
+      | .int i => if i ≥ 5 then .ok .stop else if i % 3 == 1 then .ok .skip else .ok (.val x)
+      | _ => .ok (.val x))
+  | n => (catalogue n).map (fun f x => (f x).map Yield.val)
+
+def fnOf (name : String) : Except String Fn :=
+  match catalogue name with
+  | some f => .ok f
+  | none => .error s!"unknown callable {name}"
+
+def optNat (j : Json) : Except String (Option Nat) :=
+  match j with
+  | .null => .ok none
+  | _ => do return some (← j.getNat?)
+
+def entryOfJson (j : Json) : Except String Entry := do
+  let op ← j.getObjValAs? String "op"
+  let f : Except String Fn := do fnOf (← j.getObjValAs? String "f")
+  match op with
+  | "map" => return ⟨op, .map (← f)⟩
+  | "filter" => return ⟨op, .filter (← f)⟩
+  | "takewhile" => return ⟨op, .takewhile (← f)⟩
+  | "dropwhile" => return ⟨op, .dropwhile (← f)⟩
+  | "unique" => return ⟨op, .unique (← f)⟩
+  | "flatten" => return ⟨op, .flatten⟩
+  | "limit" => return ⟨op, .slice 0 (← optNat (← j.getObjVal? "n")) 1⟩
+  | "slice" =>
+    let a ← (← arr (← j.getObjVal? "a")).mapM optNat
+    match a with
+    | [stop] => return ⟨op, .slice 0 stop 1⟩
+    | [start, stop] => return ⟨op, .slice (start.getD 0) stop 1⟩
+    | [start, stop, step] => return ⟨op, .slice (start.getD 0) stop (step.getD 1)⟩
+    | _ => throw "bad slice args"
+  | "chunked" =>
+    let size ← j.getObjValAs? Nat "size"
+    let fill ← (match j.getObjVal? "fill" with
+      | .ok fj => do return some (← vOfJson (← fj.getObjVal? "v"))
+      | .error _ => pure none)
+    return ⟨op, .chunked size fill⟩
+  | "windowed" => return ⟨op, .windowed (← j.getObjValAs? Nat "size")⟩
+  | "split" =>
+    let sep ← (match j.getObjVal? "sep" with
+      | .ok sj =>
+        if let .ok v := sj.getObjVal? "scalar" then do return Sep.scalar (← vOfJson v)
+        else if let .ok v := sj.getObjVal? "set" then do return Sep.set (← (← arr v).mapM vOfJson)
+        else pure Sep.none
+      | .error _ => pure Sep.none)
+    let m ← (match j.getObjVal? "maxsplit" with
+      | .ok mj => optNat mj
+      | .error _ => pure none)
+    return ⟨op, .split sep m⟩
+  | _ => throw s!"unknown op {op}"
+
+def srcOfJson (j : Json) : Except String Src := do
+  let xs ← (← arr (← j.getObjVal? "fin")).mapM vOfJson
+  let tail := match j.getObjValAs? String "tail" with
+    | .ok e => some e
+    | .error _ => none
+  return .fin xs tail
+
+def finOfJson (j : Json) : Except String Fin :=
+  match j with
+  | .str "gotK" => .ok .gotK
+  | .str "exhausted" => .ok .exhausted
+  | _ => match j.getObjValAs? String "raised" with
+    | .ok e => .ok (.raised e)
+    | .error _ => .error s!"bad fin {j.compress}"
+
+def finToJson : Fin → Json
+  | .gotK => "gotK"
+  | .exhausted => "exhausted"
+  | .raised e => Json.mkObj [("raised", e)]
+  | .oof => "oof"
+
+def takeOfJson (j : Json) : Except String TakeObs := do
+  let items ← (match j.getObjVal? "items" with
+    | .ok (.arr a) => a.toList.mapM vOfJson
+    | _ => pure [])
+  return ⟨items, ← finOfJson (← j.getObjVal? "fin"), ← j.getObjValAs? Nat "pulls"⟩
+
+def takeToJson (o : TakeObs) : Json :=
+  Json.mkObj [("items", Json.arr (o.items.map vToJson).toArray), ("fin", finToJson o.fin), ("pulls", o.pulls)]
+
+def obsOfRun (r : RunOut) : TakeObs := ⟨r.items, r.fin, r.pulls⟩
+
+def firstToJson : FirstObs → Json
+  | .found v => Json.mkObj [("found", vToJson v)]
+  | .default => "default"
+  | .raised e => Json.mkObj [("raised", e)]
+  | .oof => "oof"
+
+def firstOfJson (j : Json) : Except String FirstObs :=
+  match j with
+  | .str "default" => .ok .default
+  | _ =>
+    if let .ok v := j.getObjVal? "found" then do return .found (← vOfJson v)
+    else if let .ok e := j.getObjValAs? String "raised" then .ok (.raised e)
+    else .error s!"bad first obs {j.compress}"
+
+def firstObsOf : FirstOut → FirstObs
+  | .found v => .found v
+  | .default => .default
+  | .raised e => .raised e
+  | .oof => .oof
+
+/-- fuel for the model runs: far above anything a generated case needs -/
+def FUEL : Nat := 4000
+
+def chain (fwd : Bool) (h : BHeap) (i : Nat) (es : List Entry) : BHeap × Nat :=
+  es.foldl (fun (acc : BHeap × Nat) e => acc.1.addOp fwd acc.2 e) (h, i)
+
+def finName : Fin → String
+  | .gotK => "gotK"
+  | .exhausted => "exhausted"
+  | .raised e => s!"raised-{e}"
+  | .oof => "oof"
+
+def runIter (j : Json) : Except String Json := do
+  let fwd := genFacts.addOpForwardsSentinel
+  let subName ← j.getObjValAs? String "sub"
+  let some sub := baseCatalogue subName | throw s!"unknown subspec {subName}"
+  let sentinel ← (match j.getObjVal? "sentinel" with
+    | .ok .null => pure none
+    | .ok sj => do return some (← vOfJson (← sj.getObjVal? "v"))
+    | .error _ => pure none)
+  let p ← (← arr (← j.getObjVal? "p")).mapM entryOfJson
+  let e1 ← (← arr (← j.getObjVal? "e1")).mapM entryOfJson
+  let e2 ← (← arr (← j.getObjVal? "e2")).mapM entryOfJson
+  let src ← srcOfJson (← j.getObjVal? "src")
+  let k ← j.getObjValAs? Nat "k"
+  let modeJ ← j.getObjVal? "mode"
+  let impl ← j.getObjVal? "impl"
+  -- the builder calls, on the heap model
+  let (h0, i0) := (BHeap.mk [] []).newIter sub sentinel
+  let (h1, ip) := chain fwd h0 i0 p
+  let some pBefore := h1.view ip | throw "model: prefix spec missing"
+  let (h2, _) := chain fwd h1 ip e1
+  let (h3, id2) := chain fwd h2 ip e2
+  let some pAfter := h3.view ip | throw "model: prefix spec missing"
+  let some d2 := h3.view id2 | throw "model: derived spec missing"
+  -- what the user wrote: Iter(sub, sentinel=…) followed by P ++ E2 (the sentinel stays)
+  let userKinds : List Kind := .base sub sentinel :: (p ++ e2).map (·.kind)
+  let prefixKinds : List Kind := .base sub sentinel :: p.map (·.kind)
+  if !(userKinds.all Kind.wf) || !((e1.map (·.kind)).all Kind.wf) then
+    return Json.mkObj [("skip", true), ("why", "stage arguments outside the modelled domain")]
+  let mBefore := obsOfRun (runTake pBefore.kinds src FUEL k)
+  let mAfter := obsOfRun (runTake pAfter.kinds src FUEL k)
+  let mReused := obsOfRun (runTake d2.kinds src FUEL k)
+  let iBefore ← takeOfJson (← impl.getObjVal? "before")
+  let iAfter ← takeOfJson (← impl.getObjVal? "after")
+  let iReused ← takeOfJson (← impl.getObjVal? "reused")
+  let iFresh ← takeOfJson (← impl.getObjVal? "fresh")
+  let reprSame ← impl.getObjValAs? Bool "repr_same"
+  let mainJ ← impl.getObjVal? "main"
+  let reuseHolds := checkReuse reprSame iBefore iAfter iReused iFresh &&
+    checkTake prefixKinds src k iBefore && checkTake userKinds src k iReused
+  let reuseAgree := mBefore == iBefore && mAfter == iAfter && mReused == iReused && mReused == iFresh
+  let (mainAgree, mainHolds, mainModel, br) ← (match modeJ with
+    | .str "take" => pure (true, true, Json.null, s!"take-{finName mReused.fin}")
+    | .str "all" => do
+      let m := obsOfRun (runAll d2.kinds src FUEL)
+      let i ← takeOfJson mainJ
+      let agree := m.fin == i.fin && m.pulls == i.pulls && (m.fin != .exhausted || m.items == i.items)
+      pure (agree, checkAll userKinds src i, takeToJson m, s!"all-{finName m.fin}")
+    | _ => do
+      let keyName ← modeJ.getObjValAs? String "first"
+      let key ← fnOf keyName
+      let m := runFirst d2.kinds src FUEL key
+      let i ← firstOfJson (← mainJ.getObjVal? "first")
+      let ip ← mainJ.getObjValAs? Nat "pulls"
+      let mo := firstObsOf m.1
+      let sameKind := match mo, i with
+        | .raised _, .raised _ => true      -- class of a key error: see `checkFirst`
+        | a, b => a == b
+      pure ((mo == i || sameKind) && m.2 == ip, checkFirst userKinds src key i ip,
+        Json.mkObj [("first", firstToJson mo), ("pulls", m.2)],
+        s!"first-{match mo with | .found _ => "found" | .default => "default" | .raised e => "raised-" ++ e | .oof => "oof"}"))
+  let oof := mBefore.fin == .oof || mReused.fin == .oof
+  if oof then
+    return Json.mkObj [("skip", true), ("why", "model ran out of fuel")]
+  let why := (if reuseHolds then "" else "prefix/derived spec: ") ++ (if mainHolds then "" else "main observation")
+  return Json.mkObj [
+    ("agree", reuseAgree && mainAgree), ("holds", reuseHolds && mainHolds),
+    ("model", Json.mkObj [("before", takeToJson mBefore), ("after", takeToJson mAfter),
+      ("reused", takeToJson mReused), ("main", mainModel)]),
+    ("need", Nat.max (need userKinds src (srcLen src) k) (primeNeed src (srcLen src) [] userKinds)),
+    ("branch", br), ("why", why)]
+
+/-! ### Invoke -/
+
+def kwFnCatalogue (name : String) : Option (V → Except Err (List (String × V))) :=
+  match name with
+  | "kwd" => some (fun x => match x with
+      | .int i => .ok [("a", x), ("c", .int (i + 1))]
+      | _ => .error "TypeError")
+  | "kwb" => some (fun x => .ok [("b", x)])
+  | _ => none
+
+def kwOfJson (f : Json → Except String α) (j : Json) : Except String (List (String × α)) := do
+  (← arr j).mapM fun e => do
+    match ← arr e with
+    | [.str k, v] => return (k, ← f v)
+    | _ => throw s!"bad kw {e.compress}"
+
+def callOfJson (j : Json) : Except String ICall := do
+  let op ← j.getObjValAs? String "op"
+  match op with
+  | "C" => return .C (← (← arr (← j.getObjVal? "a")).mapM vOfJson) (← kwOfJson vOfJson (← j.getObjVal? "kw"))
+  | "S" =>
+    let fj : Json → Except String Fn := fun x => do fnOf (← x.getStr?)
+    return .S (← (← arr (← j.getObjVal? "a")).mapM fj) (← kwOfJson fj (← j.getObjVal? "kw"))
+  | "*" =>
+    let a ← (match j.getObjVal? "args" with
+      | .ok (.str n) => do return some (← fnOf n)
+      | _ => pure none)
+    let k ← (match j.getObjVal? "kwargs" with
+      | .ok (.str n) => (match kwFnCatalogue n with
+        | some f => pure (some f)
+        | none => throw s!"unknown kwargs spec {n}")
+      | _ => pure none)
+    return .star a k
+  | _ => throw s!"unknown invoke call {op}"
+
+inductive IRes where
+  | ok (a : List V) (kw : List (String × V))
+  | raised (e : Err)
+
+def sortKw (kw : List (String × V)) : List (String × V) :=
+  (kw.toArray.qsort (fun a b => a.1 < b.1)).toList
+
+def IRes.beq : IRes → IRes → Bool
+  | .ok a k, .ok b l => a == b && (sortKw k).map (·.1) == (sortKw l).map (·.1) && (sortKw k).map (·.2) == (sortKw l).map (·.2)
+  | .raised a, .raised b => a == b
+  | _, _ => false
+instance : BEq IRes := ⟨IRes.beq⟩
+
+def iresOfJson (j : Json) : Except String IRes := do
+  if let .ok e := j.getObjValAs? String "raised" then return .raised e
+  match ← arr (← j.getObjVal? "ok") with
+  | [a, kw] => return .ok (← (← arr a).mapM vOfJson) (← kwOfJson vOfJson kw)
+  | _ => throw s!"bad invoke result {j.compress}"
+
+def iresToJson : IRes → Json
+  | .ok a kw => Json.mkObj [("ok", Json.arr #[Json.arr (a.map vToJson).toArray,
+      Json.arr ((sortKw kw).map (fun p => Json.arr #[Json.str p.1, vToJson p.2])).toArray])]
+  | .raised e => Json.mkObj [("raised", e)]
+
+def evalInvoke (inv : Invoke) (t : V) : IRes :=
+  match inv.evalArgs t with
+  | .ok (a, kw) => .ok a kw
+  | .error e => .raised e
+
+def runInvoke (j : Json) : Except String Json := do
+  let p ← (← arr (← j.getObjVal? "p")).mapM callOfJson
+  let e1 ← (← arr (← j.getObjVal? "e1")).mapM callOfJson
+  let e2 ← (← arr (← j.getObjVal? "e2")).mapM callOfJson
+  let target ← vOfJson (← j.getObjVal? "target")
+  let impl ← j.getObjVal? "impl"
+  let base : Invoke := p.foldl Invoke.call ⟨[], []⟩
+  let _d1 : Invoke := e1.foldl Invoke.call base
+  let d2 : Invoke := e2.foldl Invoke.call base
+  let mBase := evalInvoke base target
+  let mD2 := evalInvoke d2 target
+  let iBefore ← iresOfJson (← impl.getObjVal? "before")
+  let iAfter ← iresOfJson (← impl.getObjVal? "after")
+  let iReused ← iresOfJson (← impl.getObjVal? "reused")
+  let iFresh ← iresOfJson (← impl.getObjVal? "fresh")
+  let reprSame ← impl.getObjValAs? Bool "repr_same"
+  let holds := reprSame && iBefore == iAfter && iReused == iFresh
+  let agree := mBase == iBefore && mBase == iAfter && mD2 == iReused && mD2 == iFresh
+  return Json.mkObj [("agree", agree), ("holds", holds),
+    ("model", Json.mkObj [("base", iresToJson mBase), ("derived", iresToJson mD2)]),
+    ("branch", match mD2 with | .ok _ _ => "invoke-ok" | .raised e => s!"invoke-raised-{e}"),
+    ("why", if holds then "" else "Invoke base spec changed or derived spec differs from the fresh one")]
+
+def run (j : Json) : Except String Json := do
+  match j.getObjValAs? String "kind" with
+  | .ok "invoke" => runInvoke j
+  | _ => runIter j
 
 end Glom.C17.Driver
